@@ -62,6 +62,11 @@ struct OracleInner {
 	// where the watermark is pinned (e.g. one long reader holding GC back).
 	commits_since_gc: u32,
 
+	// Bumped by `reset_for_restore`. A transaction remembers the value it saw
+	// when it began; after a restore its horizon belongs to a timeline that no
+	// longer exists, so no comparison of sequence numbers can validate it.
+	epoch: u64,
+
 	// Highest `oldest_active` observed at any GC body firing. Used by a
 	// debug-only monotonicity assert; the GC body asserts `oldest_active >=
 	// last_gc_oldest_active`. Catches caller-side regressions that pass a
@@ -87,10 +92,17 @@ impl CommitOracle {
 				replaced: HashMap::new(),
 				kept_since: 0,
 				commits_since_gc: 0,
+				epoch: 0,
 				#[cfg(debug_assertions)]
 				last_gc_oldest_active: 0,
 			}),
 		}
+	}
+
+	/// The restore epoch a beginning transaction has to remember (see
+	/// `check_in_epoch`).
+	pub(crate) fn epoch(&self) -> u64 {
+		self.inner.lock().epoch
 	}
 
 	/// Validate the write set against the recent-writes map.
@@ -98,11 +110,31 @@ impl CommitOracle {
 	/// Called under `write_mutex` BEFORE seq allocation. Returns:
 	/// - `TransactionRetry` if `start_seq < kept_since` (window GC'd).
 	/// - `TransactionWriteConflict` if any key was committed at seq > start_seq.
+	#[cfg(test)]
 	pub(crate) fn check<'a, I>(&self, keys: I, start_seq: u64) -> Result<()>
 	where
 		I: IntoIterator<Item = &'a [u8]>,
 	{
+		self.check_in_epoch(keys, start_seq, None)
+	}
+
+	/// `check` for a transaction that began in restore epoch `epoch`: if the
+	/// store has been restored since, the transaction gets `TransactionRetry`.
+	/// Its horizon can lie above the restored sequence number, where neither the
+	/// `kept_since` rule nor the stamps of post-restore commits would catch it.
+	pub(crate) fn check_in_epoch<'a, I>(
+		&self,
+		keys: I,
+		start_seq: u64,
+		epoch: Option<u64>,
+	) -> Result<()>
+	where
+		I: IntoIterator<Item = &'a [u8]>,
+	{
 		let g = self.inner.lock();
+		if epoch.is_some_and(|e| e != g.epoch) {
+			return Err(Error::TransactionRetry);
+		}
 		if start_seq < g.kept_since {
 			return Err(Error::TransactionRetry);
 		}
@@ -246,6 +278,7 @@ impl CommitOracle {
 		let mut g = self.inner.lock();
 		g.kept_since = max_seq;
 		g.commits_since_gc = 0;
+		g.epoch += 1;
 		g.recent_writes.clear();
 		g.replaced.clear();
 		// `oldest_active` can legitimately go backwards across a restore (the
